@@ -328,7 +328,11 @@ func cmdCheck(args []string) int {
 	if len(claims.Bounded) > 0 || *tier == "thorough" {
 		runH()
 	}
-	replDir := filepath.Join(root, "replays", id)
+	outRoot := root
+	if d := os.Getenv("VERIF_OUT"); d != "" {
+		outRoot = d // self-test runs on scratch trees keep their evidence and replays apart
+	}
+	replDir := filepath.Join(outRoot, "replays", id)
 	writeReplay := func(name string, payload map[string]interface{}) string {
 		os.MkdirAll(replDir, 0o755)
 		p := filepath.Join(replDir, sanitize(name)+".json")
@@ -467,9 +471,9 @@ func cmdCheck(args []string) int {
 		"property_id": id, "tier": *tier, "seed": seed, "level": level, "coverage": cov, "assumptions": assumptions,
 		"wall_s": round3(time.Since(start).Seconds()), "violations": violations,
 	}
-	os.MkdirAll(filepath.Join(root, "evidence"), 0o755)
+	os.MkdirAll(filepath.Join(outRoot, "evidence"), 0o755)
 	data, _ := json.MarshalIndent(ev, "", " ")
-	os.WriteFile(filepath.Join(root, "evidence", id+".json"), data, 0o644)
+	os.WriteFile(filepath.Join(outRoot, "evidence", id+".json"), data, 0o644)
 	fmt.Printf("%s tier=%s obligations=%d discharged=%d failed=%d known=%d undecided=%d unclaimed=%d wall=%.1fs\n", id, *tier, len(ds), discharged, len(failed), len(knownLines), undecided, len(unclaimed), time.Since(start).Seconds())
 	return exit
 }
